@@ -273,7 +273,38 @@ def fx6():
     return Fixture(pile, [((10,), False), ((10,), True), ((7,), False)], ops, describe, widgets)
 
 
-FIXTURES = [("frame-listbox", fx1), ("filler-pile", fx2), ("overlay", fx3), ("scrollbar", fx4), ("padding", fx5), ("twice-uncached", fx6)]
+def fx7():
+    """a Frame whose parts are widgets that do not invalidate themselves when clicked: only the Frame's own bookkeeping tells the cache that the focus part changed"""
+    h = urwid.SelectableIcon("head", 0)
+    b = urwid.SelectableIcon("body", 1)
+    f = urwid.SelectableIcon("foot", 2)
+    cols = urwid.Columns([urwid.SelectableIcon("c0", 0), urwid.SelectableIcon("c1", 1)])
+    pile = urwid.Pile([b, cols])
+    fr = urwid.Frame(urwid.Filler(pile, "top"), header=h, footer=f)
+    S = (8, 5)
+    ops = {
+        "click header": lambda: fr.mouse_event(S, "mouse press", 1, 1, 0, True),
+        "click body": lambda: fr.mouse_event(S, "mouse press", 1, 1, 1, True),
+        "click cols1": lambda: fr.mouse_event(S, "mouse press", 1, 5, 2, True),
+        "click footer": lambda: fr.mouse_event(S, "mouse press", 1, 1, 4, True),
+        "focus header": lambda: setattr(fr, "focus_position", "header"),
+        "focus footer": lambda: setattr(fr, "focus_position", "footer"),
+        "focus body": lambda: setattr(fr, "focus_position", "body"),
+        "key down": lambda: fr.keypress(S, "down"),
+        "key up": lambda: fr.keypress(S, "up"),
+        "key right": lambda: fr.keypress(S, "right"),
+        "pile.focus": lambda: setattr(pile, "focus_position", 1 - pile.focus_position),
+        "cols.focus": lambda: setattr(cols, "focus_position", 1 - cols.focus_position),
+    }
+    widgets = [fr, pile, cols, h, b, f]
+
+    def describe():
+        return (fr.focus_part, pile.focus_position, cols.focus_position)
+
+    return Fixture(fr, [((8, 5), True), ((8, 5), False), ((6, 4), True)], ops, describe, widgets)
+
+
+FIXTURES = [("frame-icons", fx7), ("frame-listbox", fx1), ("filler-pile", fx2), ("overlay", fx3), ("scrollbar", fx4), ("padding", fx5), ("twice-uncached", fx6)]
 
 
 def snapshot(c):
